@@ -36,7 +36,7 @@ COMMON_ASSUME = [
 PROPS["C11"] = {
     "level": "model_checking",
     "kani": [
-        {"package": "boa_string", "flags": [], "tags": ["c11a", "c11c"]},
+        {"package": "boa_string", "flags": [], "tags": ["c11a", "c11c", "c11d"]},
     ],
     "assumptions": COMMON_ASSUME + [
         "bounded: strings of at most N code units (N per harness in coverage.bounds); longer strings are outside the claim",
